@@ -435,7 +435,10 @@ func (f *Fix) importedCopy(withProposer, skipInv bool) (f2 *Fix, exp1, exp2 map[
 	if bt := f.Ctx.BlockTime(); !bt.IsZero() {
 		it = bt
 	}
-	f2 = &Fix{T: f.T, App: a2, Height: ih, Time: it}
+	// a package harness that adopts the copy as its fixture (`restart` of C13 / C14, `reimport` of M-Core)
+	// keeps the re-pointing closures it registered on the fixture it replaces: a later C18 fork swaps
+	// the ADOPTED fixture (lastFix) and must still rebuild the harness's cached keepers
+	f2 = &Fix{T: f.T, App: a2, Height: ih, Time: it, Rebind: f.Rebind}
 	f2.setCtx()
 	if withProposer {
 		if vals, verr := f.App.StakingKeeper.GetAllValidators(f.Ctx); verr == nil && len(vals) > 0 {
